@@ -40,5 +40,6 @@ def run(ctx):
         xml_rules.escaping_gate(ctx, prog, "R5")
         xml_rules.raw_xml_identity(ctx, prog, "R6")
         xml_rules.string_values_unchanged(ctx, prog, "R6")
+        xml_rules.read_values_unaltered(ctx, prog, "R1")
         header_rules.publication_order(ctx, prog, "R6")
     ctx.cfg = None
